@@ -139,6 +139,23 @@ fn main() {
                 if !((dl - back).abs() <= 1e-9 * (1.0 + back)) || !(dl >= 0.0) {
                     m.violate("Lch", "ciede2000_polar_vs_rect", inp(), fjson(dl), fjson(back), "");
                 }
+                // every other form on the polar type: reversed arguments, the deprecated trait, the improved variant; and the
+                // same set on f32 Lch against f32 Lab
+                let (dlr, dlold, dlimp) = (cb.difference(ca), ca.get_color_difference(cb), ca.improved_difference(cb));
+                m.evals(3);
+                if !((dlr - dl).abs() <= 1e-12 * (1.0 + dl)) || dlold.to_bits() != dl.to_bits() || !((dlimp - diff::improved_ciede2000(dl)).abs() <= 1e-9 * (1.0 + dl)) {
+                    m.violate("Lch", "ciede2000_polar_forms", inp(), json!({"ab": dl, "ba": dlr, "deprecated": dlold, "improved": dlimp}), json!({"improved": diff::improved_ciede2000(dl)}), "");
+                }
+                {
+                    let (fa, fb) = (Lab::<D65, f32>::new(a[0] as f32, a[1] as f32, a[2] as f32), Lab::<D65, f32>::new(b[0] as f32, b[1] as f32, b[2] as f32));
+                    let (ca32, cb32) = (Lch::from_color_unclamped(fa), Lch::from_color_unclamped(fb));
+                    let (p, pi, li) = (ca32.difference(cb32) as f64, ca32.improved_difference(cb32) as f64, fa.improved_difference(fb) as f64);
+                    let l = fa.difference(fb) as f64;
+                    m.evals(3);
+                    if !((pi - diff::improved_ciede2000(p)).abs() <= 1e-4 * (1.0 + p)) || !((li - diff::improved_ciede2000(l)).abs() <= 1e-4 * (1.0 + l)) {
+                        m.violate("Lch/f32", "improved_ciede2000_f32", inp(), json!({"lch": pi, "lab": li}), json!({"lch": diff::improved_ciede2000(p), "lab": diff::improved_ciede2000(l)}), "");
+                    }
+                }
                 // f32: judged against the reference evaluated on the f32-rounded inputs
                 let a32 = [a[0] as f32, a[1] as f32, a[2] as f32];
                 let b32 = [b[0] as f32, b[1] as f32, b[2] as f32];
